@@ -215,6 +215,51 @@ theorem byteStreamSplit_roundtrip (size : Nat) (xs : List (List Nat)) (h : ∀ x
 
 example : ∀ x ∈ [[1, 2, 3, 4], [5, 6, 7, 8]], x.length = 4 := by decide
 
+/-- **Source shapes**: the guard conditions, level arithmetic and wrapping expressions the models
+of `RleEncoder`, `BitWriter` / `BitReader`, `LevelInfoBuilder` and `DeltaBitPackEncoder` were
+written from are still literally present in the sources (regenerated by `tools/translate.py` on
+every run; an edit of any of these 37 fragments makes its item LOST and this theorem false, so the
+change is reported even when the sampled correspondence would not see it). -/
+theorem source_shapes_present :
+    SH_RLE_PUT_SKIP_lost = false ∧
+    SH_RLE_PUT_FLUSH_lost = false ∧
+    SH_RLE_PUT_RESET_lost = false ∧
+    SH_RLE_GROUP_FULL_lost = false ∧
+    SH_RLE_FBV_GUARD_lost = false ∧
+    SH_RLE_FBV_CLOSE_lost = false ∧
+    SH_RLE_MAX_GROUPS_lost = false ∧
+    SH_RLE_FLUSH_ALLREP_lost = false ∧
+    SH_RLE_FLUSH_PAD_lost = false ∧
+    SH_RLE_VALUE_WIDTH_lost = false ∧
+    SH_RLE_DEC_ZERO_lost = false ∧
+    SH_RLE_DEC_ORDER_lost = false ∧
+    SH_BW_PUT_lost = false ∧
+    SH_BW_CARRY_lost = false ∧
+    SH_BR_GET_lost = false ∧
+    SH_BR_BOUND_lost = false ∧
+    SH_LV_LIST_DEF_lost = false ∧
+    SH_LV_STRUCT_DEF_lost = false ∧
+    SH_LV_LIST_REP_lost = false ∧
+    SH_LV_START_REP_lost = false ∧
+    SH_LV_NULLS_lost = false ∧
+    SH_LV_EMPTIES_lost = false ∧
+    SH_LV_CLASSIFY_lost = false ∧
+    SH_LV_STAMP_lost = false ∧
+    SH_LV_CHILD_RANGE_lost = false ∧
+    SH_LV_STRUCT_NULL_lost = false ∧
+    SH_LV_LEAF_ALLNULL_lost = false ∧
+    SH_LV_LEAF_DEF_lost = false ∧
+    SH_LV_LEAF_BULK_SET_lost = false ∧
+    SH_LV_LEAF_MAXDEF_lost = false ∧
+    SH_DL_SUB32_lost = false ∧
+    SH_DL_WIDTH_lost = false ∧
+    SH_DL_DELTA_lost = false ∧
+    SH_DL_MIN_lost = false ∧
+    SH_DL_PACKED_lost = false ∧
+    SH_DL_DEC_ADD_lost = false ∧
+    SH_DBA_PREFIX_lost = false := by
+  decide
+
 /-- **Format constants** the specification (`encodeRun`, `uleb`, `Run.Valid`) and the proofs
 hard-code, as regenerated from the current sources by `tools/translate.py`: a change of any
 of these literals in `rle.rs` / `bit_util.rs` / `encoding/mod.rs` / `decoding.rs` breaks this
